@@ -140,13 +140,28 @@ def gen_entry(r, rng, dom, pspace, prows, p_density=0.2):
             if f:
                 e["filter"] = f
         if e["cls"] == "Gaussian":
+            ok = False
             try:
                 pts = G.uniform_sample(dom, prow, 50, rng)
-                v = G.space(dom)[0][0]
-                mean = pts[v][r.randrange(50)]
-                e["gauss"] = {"mean": [GG.q(float(m)) for m in mean], "std": r.choice((0.2, 0.5, 1.0, 2.0))}
+                v, dd = G.space(dom)[0]
+                mean = [GG.q(float(m)) for m in pts[v][r.randrange(50)]]
+                std = r.choice((0.2, 0.5, 1.0, 2.0))
+                ok = True
+                for tab in tabs:
+                    # the rejection loop only terminates in practice if the normal law
+                    # puts enough mass on the domain at *every* parameter row
+                    z = rng.normal(size=(400, dd)) * std + np.asarray(mean)
+                    Pz = {v: z}
+                    for pv, val in tab.items():
+                        Pz[pv] = np.full((400, 1), float(val[0]))
+                    if float(np.mean(G.margin(dom, Pz) >= 0)) < 0.1:
+                        ok = False
+                e["gauss"] = {"mean": mean, "std": std}
             except Exception:
+                ok = False
+            if not ok:
                 e["cls"] = "RandomUniform"
+                e.pop("gauss", None)
         if e["cls"].startswith("Adaptive"):
             e["calls"] = r.choice((1, 2, 3))
             e["ratio"] = r.choice((0.0, 0.25, 0.5, 1.0))
